@@ -47,3 +47,14 @@ Theorem C15_docs_url_shape : forall g t disp c mods item ms pre,
     Some (root g c ++ dirs (c :: mods) ++ pre ++ item ++ ".html" ++ members_part t ms)%string.
 Proof. exact gen_url_shape. Qed.
 Print Assumptions C15_docs_url_shape.
+
+(* every lifetime lowering hands to the backends for a method (self, parameters, output) is 'static or an index below
+   LifetimeEnv::num_lifetimes: LifetimeEnv::fmt_lifetime cannot reach its "Found out of range lifetime" panic on a
+   lifetime of the method's own signature, however lifetimes are written, elided or hidden (Lifetimes/Elision.v) *)
+From Coq Require Import Arith.
+From DV Require Import Lifetimes.Model Lifetimes.Elision Lifetimes.ElisionProofs.
+Theorem C15_lowered_lifetimes_in_range : forall g m k,
+  ssig_ok g -> lower_sig g = Some (m, k) ->
+  s_n g <= k /\ Forall (below k) (flat_map ty_lts (m_params m ++ m_ret m)).
+Proof. exact lowered_lifetimes_in_range. Qed.
+Print Assumptions C15_lowered_lifetimes_in_range.
